@@ -114,6 +114,7 @@ fn check_hooks(hooks: &[String], n_ext: usize, rejected_at: Option<&str>) -> Res
 fn run(variant: usize) -> CaseOut {
     let mut out = CaseOut::default();
     reset_world();
+    PRE_PARSE.with(|c| c.set(false));
     let flavour = flavour_of(variant);
     let n_ext = 1 + draw(3) as usize;
     let op = if draw(3) == 0 { "mutation" } else { "query" };
@@ -183,6 +184,8 @@ fn run(variant: usize) -> CaseOut {
     }
     let faults_desc = describe_faults();
     let faulty = faults_desc.as_object().map(|m| !m.is_empty()).unwrap_or(false);
+    // one case in four hands the schema a request whose document is already parsed
+    PRE_PARSE.with(|c| c.set(chance(1, 4)));
     // run without extensions
     set_latency(draw(1 << 16) as u64, [1u32, 0, 2, 3][draw(4) as usize]);
     let p0 = sim::draw_params();
@@ -192,6 +195,7 @@ fn run(variant: usize) -> CaseOut {
     set_latency(draw(1 << 16) as u64, [1u32, 0, 2, 3][draw(4) as usize]);
     let p1 = sim::draw_params();
     let ext = run_request_with("with-extensions", flavour, n_ext, &query, operation_name, variables.clone(), Some(p1));
+    PRE_PARSE.with(|c| c.set(false));
     let (Some(r0), Some(r1)) = (plain.resp.clone(), ext.resp.clone()) else {
         out.viol("C30/stall", format!("request did not complete (plain: {:?}, with extensions: {:?}); query: {query}; faults: {faults_desc}", plain.end, ext.end));
         return out;
